@@ -16,7 +16,7 @@ func main() {
 			"setfenv/getfenv shapes; traces compared with the reference evaluator; non-trivial = at least 5 emitted rows or an error outcome; distinct by Gallina term",
 		Modes:     []luaprop.Mode{{Name: "closures", Features: f, Weight: 1}},
 		NQuick:    240,
-		NThorough: 6000,
+		NThorough: 2500,
 		Corpus:    corpus,
 		VM:        true,
 		Isolate:   true,
